@@ -573,6 +573,92 @@ pub fn run(ctx: &mut Ctx) -> Result<(), Violation> {
         battery(&text, &idents, &mut t, st)
     });
     ctx.stage("random-formulas-x-option-battery", false, r)?;
+
+    // arbitrary combinations: channel x ordering file x any subset of -t -v -m -r -f X -b N
+    let cases = ctx.tier.pick(500, 20_000);
+    let r = par_random(ctx, "random-option-subsets", cases, 320, |tape, st| {
+        let mut t = Tape::new(tape);
+        let (text, idents) = match gen_formula_text(&mut t, 5) {
+            Some(x) => x,
+            None => {
+                st.discarded += 1;
+                return Ok(());
+            }
+        };
+        for _ in 0..3 {
+            let channel = ["arg", "file", "stdin"][t.choose(3)].to_string();
+            let ordering_file = if t.chance(110) {
+                let (names, _) = gen_ordering_names(&idents, &mut t);
+                Some(render_ordering(&names, &mut t))
+            } else {
+                None
+            };
+            let mut flags: Vec<String> = Vec::new();
+            if t.chance(100) {
+                flags.push("-r".into());
+            }
+            if t.chance(180) {
+                flags.push("-t".into());
+            }
+            if t.chance(128) {
+                flags.push("-v".into());
+            }
+            if t.chance(80) {
+                flags.push("-m".into());
+            }
+            if t.chance(128) {
+                flags.push("-f".into());
+                flags.push(FILTERS[t.choose(FILTERS.len())].0.to_string());
+            }
+            if t.chance(70) {
+                flags.push("-b".into());
+                flags.push((1 + t.choose(4)).to_string());
+            }
+            // long option spellings now and then
+            if t.chance(60) {
+                for f in flags.iter_mut() {
+                    *f = match f.as_str() {
+                        "-t" => "--truthtable".to_string(),
+                        "-v" => "--vars".to_string(),
+                        "-m" => "--model".to_string(),
+                        "-r" => "--export-ordering".to_string(),
+                        other => other.to_string(),
+                    };
+                }
+            }
+            let inv = Invocation {
+                text: text.clone(),
+                channel,
+                ordering_file,
+                flags: flags
+                    .iter()
+                    .map(|f| match f.as_str() {
+                        "--truthtable" => "-t".to_string(),
+                        "--vars" => "-v".to_string(),
+                        "--model" => "-m".to_string(),
+                        "--export-ordering" => "-r".to_string(),
+                        o => o.to_string(),
+                    })
+                    .collect(),
+            };
+            // run with the (possibly long) spellings, judge with the canonical ones
+            let run_inv = Invocation {
+                flags: flags.clone(),
+                ..inv.clone()
+            };
+            st.eval();
+            st.class(&format!("subset:{}", inv.flags.iter().filter(|f| f.starts_with('-')).cloned().collect::<Vec<_>>().join("")));
+            let cj = run_inv.to_json();
+            let ex = expect(&inv.text, inv.ordering_file.as_deref()).map_err(|e| Violation::new(e, cj.clone()))?;
+            let out = spawn(&run_inv).map_err(|e| Violation::new(e, cj.clone()))?;
+            check_output(&inv, &out, &ex).map_err(|e| Violation::new(format!("{} -- stdout:\n{}", e, out), cj.clone()))?;
+            if st.nontrivial(fnv_str(&cj.to_string())) {
+                st.nt_sample(|| cj.clone());
+            }
+        }
+        Ok(())
+    });
+    ctx.stage("random-option-subsets", false, r)?;
     Ok(())
 }
 
